@@ -1,7 +1,9 @@
 """A module's stub omits a name that is not in its __all__, but the package __init__ stub still imports it from there.
 
 Exit status 1 = defect present, 0 = absent, 2 = inconclusive (preconditions of the input failed).
-Mechanism keys: stub-typecheck:semantic:attr-defined:Module "_" has no attribute "_":import"""
+Mechanism keys:
+  stub-typecheck:semantic:attr-defined:Module '_' has no attribute '_':import
+"""
 import os
 import sys
 
